@@ -11,4 +11,6 @@ def check(run, replay=None):
                 "every part and of the contract-level query vs schema_for!(declared type) computed in the same binary, names vs the "
                 "names the queries serialise under; non-trivial = distinct program / part")
     return msgprops.check(run, "C16", "Props/C16", THEOREMS, {"decode": False, "schemas": True}, replay,
-                          translated=("Props/C16T", ["c16_translated_response_schemas_calls", "c16_translated_contract_level_table_parts"]))
+                          translated=[("Props/C16T", ["c16_translated_response_schemas_calls", "c16_translated_contract_level_table_parts"]),
+                                      ("Props/C16V", ["c16_translated_variant_records_the_response_type", "c16_translated_explicit_response_type_wins",
+                                                      "c16_translated_only_queries_have_a_response_type"])])
